@@ -161,5 +161,15 @@ CLAIMS = {
         "note": TRUST + "vendor value encodings (Lua lines cited); read-back equality through a live device is not decided",
         "technique": "def-use chain + must/may event analysis + layout domain + cursor-advance analysis (static analysis)",
     },
+    "C01": {
+        "text": "Decided compositionally: def-use chains setter → backing attribute → apply → SetStateCommand attribute for all 16 settable "
+                "states, then C10's abstract round trip to the vendor decode; C11's decode chain back to the getters; value-flow "
+                "connectivity of _send_command / LAN.send / _read / drains / V3 write+read; every response of an exchange reaches "
+                "_update_state, whose stores are overwrite-only; both data_received implementations satisfy the reassembly premises; the "
+                "transport obligations of C02/C04/C05/C12 are re-run, not assumed.",
+        "note": TRUST + "AES/MD5/SHA behave as specified; byte equality through the ciphers and real TCP schedules are not explored (not needed: "
+                "receive callbacks are sequential)",
+        "technique": "compositional static analysis: def-use chains + abstract round trips + reassembly-invariant premises",
+    },
 }
 NOT_APPLICABLE = {}
